@@ -93,7 +93,15 @@ var specs = []spec{
 	{File: "shard/idcounter.go", Func: "FreeId", Recv: "IdCounter", Module: "IdCounter", Ext: true, Structs: idCounterFields},
 	{File: "cluster/actions.go", Func: "curateFailedPoints", Module: "Curate", Ext: true, Structs: curateStructs, Prims: []string{"sortFunc"},
 		Consts: []constSpec{{File: "cluster/errors.go", Name: "ErrShardUnavailable", As: "ErrShardUnavailable"}}},
+	{File: "utils/compare.go", Func: "AccessNestedProperty", Module: "Compare", Ext: true},
+	{File: "utils/compare.go", Func: "SortSearchResults", Module: "Compare", Ext: true, Structs: sortStructs,
+		Prims: []string{"sortFunc", "CompareAny=func(a, b any) int"}},
 }
+
+// models.SearchResult as far as sorting looks at it, models.SortOption
+var sortStructs = []structSpec{{File: "models/point.go", Name: "PointAsMap"}, {File: "models/search.go", Name: "SearchResult", Only: []string{"DecodedData"}},
+	{File: "models/search.go", Name: "SortOption"}}
+
 
 var curateStructs = []structSpec{{File: "cluster/actions.go", Name: "FailedPoint"}}
 
@@ -1301,6 +1309,7 @@ func main() {
 	files := map[string]*ast.File{}
 	mods := map[string][]genFunc{}
 	extMods := map[string]bool{}
+	knownFuncs := map[string]map[string]*xty{}
 	var order []string
 	for _, sp := range specs {
 		f, ok := files[sp.File]
@@ -1319,7 +1328,10 @@ func main() {
 		var gs []genFunc
 		if sp.Ext {
 			extMods[sp.Module] = true
-			gs = translateExt(fset, makeLoader(fset, *repo, files), sp)
+			if knownFuncs[sp.Module] == nil {
+				knownFuncs[sp.Module] = map[string]*xty{}
+			}
+			gs = translateExt(fset, makeLoader(fset, *repo, files), sp, knownFuncs[sp.Module])
 		} else {
 			gs = translate(fset, f, sp)
 		}
